@@ -11,6 +11,7 @@ package main
 //   impl != reference on a well-parenthesised, non-excluded tree  -> C08 violation   (Kind "precedence")
 //   impl != model (anything else)                                 -> disagreement    (Obligation "pratt-correspondence")
 //   model != reference / roundtrip fails on a WellPar tree        -> disagreement    (the theorem's own statement)
+//   roundtrip succeeds on a tree that is not WellPar              -> disagreement    (WellPar's side conditions are not tight)
 //
 // Spaces of cases:
 //   A  exhaustive: all trees with k binary operators (one representative spelling per precedence class, chosen per
@@ -347,6 +348,13 @@ func c08Eval(w *W, idx int, space string, e *c08E) {
 		w.stats.Disagree++
 		w.Report(Finding{Kind: "model-vs-spec", Key: "roundtrip@" + class, Input: sql, Detail: "WellPar tree but parse (render e) != some (erase e): " + strings.Join(words, " "),
 			Disagreement: true, Obligation: "pratt_roundtrip"})
+		return
+	}
+	if rt && !wp {
+		// the converse (not proved in Lean, see DC/Props/C08.lean): only well-parenthesised trees re-parse to themselves
+		w.stats.Disagree++
+		w.Report(Finding{Kind: "model-vs-spec", Key: "roundtrip-not-wellpar@" + class, Input: sql, Detail: "tree is not WellPar but parse (render e) == some (erase e): " + strings.Join(words, " "),
+			Disagreement: true, Obligation: "parse_only_wellpar"})
 		return
 	}
 	if inScope && mlinesS != rlinesS {
